@@ -6,6 +6,7 @@ import DeadpoolVerif.Model.Managed
 import DeadpoolVerif.Model.Unmanaged
 import DeadpoolVerif.Model.PgConfig
 import DeadpoolVerif.Model.RedisConfig
+import DeadpoolVerif.Model.Sync
 
 open DeadpoolVerif
 
@@ -462,9 +463,37 @@ def run (ws : List String) : String :=
 
 end RdDrv
 
+namespace SyDrv
+open Sy
+
+def parseAction (ws : List String) : Option Sy.Action :=
+  match ws with
+  | ["call", "ok"] => some (.call .ok)
+  | ["call", "panic"] => some (.call .panic)
+  -- `b`: observed on a pool thread; anything else is not a step of the model
+  | ["begin", i, "b"] => i.toNat?.map .begin
+  | ["finish", i] => i.toNat?.map .finish
+  | ["cancel", i] => i.toNat?.map .cancel
+  | ["result", i, "ok"] => i.toNat?.map (.result · .ok)
+  | ["result", i, "panic"] => i.toNat?.map (.result · .panic)
+  | ["result", i, "aborted"] => i.toNat?.map (.result · .aborted)
+  | ["dropw"] => some .dropw
+  | ["destroy", "b"] => some .destroy
+  | _ => none
+
+def b01 (b : Bool) : String := if b then "1" else "0"
+
+def obsLine (s : Sy.State) : String :=
+  s!"obs alive={b01 s.alive} poisoned={b01 s.poisoned} value={b01 s.value} " ++
+  s!"lock={match s.lock with | some i => toString i | none => "-"} destroyed={s.destroyed} " ++
+  s!"events={s.log.length} good={b01 (goodLog s.log).isSome}"
+
+end SyDrv
+
 structure DState where
   managed : Option State := none
   unmanaged : Option U.State := none
+  sync : Option Sy.State := none
 
 def handle (d : DState) (line : String) : DState × Option String :=
   let ws := (line.trimAscii.toString.splitOn " ").filter (· ≠ "")
@@ -488,13 +517,36 @@ def handle (d : DState) (line : String) : DState × Option String :=
     | _, _, _ => (d, some "bad-op")
   | "cfg" :: "managed" :: rest =>
     match parseCfg rest with
-    | some c => ({ managed := some (init c), unmanaged := none }, some "cfg ok")
+    | some c => ({ managed := some (init c), unmanaged := none, sync := none }, some "cfg ok")
     | none => (d, some "bad-cfg")
+  | "cfg" :: "sync" :: rest =>
+    -- the construction must have happened on a pool thread; otherwise there is no model run
+    if rest.contains "create=b" then ({ managed := none, unmanaged := none, sync := some Sy.init }, some "cfg ok")
+    else ({ managed := none, unmanaged := none, sync := some { Sy.init with alive := false, value := false } },
+          some "cfg ok")
   | "cfg" :: "unmanaged" :: rest =>
     match UDrv.parseCfg rest with
-    | some c => ({ managed := none, unmanaged := some (U.init c) }, some "cfg ok")
+    | some c => ({ managed := none, unmanaged := some (U.init c), sync := none }, some "cfg ok")
     | none => (d, some "bad-cfg")
   | _ =>
+    match d.sync with
+    | some ss =>
+      -- `probe`: an observation, not a step; `finish i p`: the observed outcome must be the
+      -- closure's scripted behaviour
+      if ws == ["probe"] then (d, some (SyDrv.obsLine ss)) else
+      let ws := match ws with
+        | ["finish", i, p] =>
+          match i.toNat?.bind (ss.tasks[·]?) with
+          | some t => if (t.beh == .panic) == (p == "1") then ["finish", i] else ["finish-mismatch"]
+          | none => ws
+        | _ => ws
+      match SyDrv.parseAction ws with
+      | some a =>
+        match Sy.step ss a with
+        | some s' => ({ d with sync := some s' }, some (SyDrv.obsLine s'))
+        | none => (d, some "reject")
+      | none => (d, some "bad-op")
+    | none =>
     match d.unmanaged with
     | some us =>
       match UDrv.parseAction ws with
